@@ -31,6 +31,7 @@
 #include <signal.h>
 #include <fcntl.h>
 #include <pthread.h>
+#include <sched.h>
 #include "qthread/qthread.h"
 #include "qthread/sinc.h"
 #include "qthread/qt_syscalls.h"
@@ -129,9 +130,11 @@ void c04_io_enq(qt_blocking_queue_node_t *job)
     qt_blocking_subsystem_enqueue(job);
 }
 
+int c04_last_pool = -1;      /* 0 small descriptor pool, 1 big descriptor pool: read by the thread_new probe */
 void *c04_pool_alloc(qt_mpool pool)
 {
     void *p = qt_mpool_alloc(pool);
+    if (pool == generic_qthread_pool) c04_last_pool = 0; else if (pool == generic_big_qthread_pool) c04_last_pool = 1;
     if (pool == generic_qthread_pool) LOG('A', (uintptr_t)p, 0, 0, 0, 0, 0);
     else if (pool == generic_big_qthread_pool) LOG('A', (uintptr_t)p, 1, 0, 0, 0, 0);
     return p;
@@ -168,6 +171,8 @@ static syncvar_t sgate[MAXG];
 static aligned_t alldone, donecount;
 static int       fdzero = -1;
 static int       disabled[256];
+static volatile int holdflag[16];
+static volatile int started[MAXT];
 
 static uint64_t fnv(const unsigned char *p, size_t n)
 {
@@ -300,6 +305,10 @@ static void run_prog(task_t *t)
                         if (rc == QTHREAD_SUCCESS) disabled[o.arg & 255] = 1;
                         LOG('D', o.arg, (uint64_t)(int64_t)rc & 0xffffffffULL, 0, 0, 0, 0); break; }
             case 'E': LOG('e', o.arg, 0, 0, 0, 0, 0); qthread_enable_shepherd(o.arg); disabled[o.arg & 255] = 0; LOG('f', o.arg, 0, 0, 0, 0, 0); break;
+            /* steal-layout control (no runtime calls, no events): hold a worker, release it, wait until a task has started */
+            case 'h': while (!holdflag[o.arg & 15]) { __asm__ __volatile__ ("pause" ::: "memory"); } break;
+            case 'r': holdflag[o.arg & 15] = 1; __sync_synchronize(); break;
+            case 'a': while (!started[o.arg]) { sched_yield(); } break;
             case 'u': { volatile unsigned k = 0; for (unsigned j = 0; j < (unsigned)o.arg * 1000u; j++) k += j; break; }
         }
     }
@@ -319,6 +328,7 @@ static aligned_t body(void *arg)
     uint64_t cks = t->asize ? fnv((unsigned char *)arg, (size_t)t->asize) : 0;
     int ptrok = t->asize ? ((unsigned char *)arg != t->src) : (arg == (void *)&t->tag);
     LOG('B', tag, (uintptr_t)qthread_internal_self(), sh, pw, cks, ptrok);
+    started[tag] = 1;
     run_prog(t);
     LOG('E', tag, 0, 0, 0, 0, 0);
     if (qthread_incr(&donecount, 1) + 1 == (aligned_t)ntasks) qthread_writeF_const(&alldone, 1);
@@ -350,8 +360,8 @@ int main(int argc, char **argv)
     if (argc > 1 && !strcmp(argv[1], "probe")) {
         qthread_initialize();
         printf("H %u %u %u\n", (unsigned)qthread_num_shepherds(), (unsigned)qlib->nworkerspershep, (unsigned)qlib->qthread_argcopy_size);
-        while (fgets(line, sizeof line, stdin)) c04_probe_thread_new((size_t)atol(line), stdout);
         fflush(stdout);
+        while (fgets(line, sizeof line, stdin)) { c04_probe_thread_new((size_t)atol(line), stdout); fflush(stdout); }
         _exit(0);
     }
     /* script: "T tag variant target asize retkind pre ops" | "K watchdog_seconds" */
@@ -381,6 +391,7 @@ int main(int argc, char **argv)
         for (unsigned j = 0; j + 1 < ns; j++) printf(" %u:%u", (unsigned)qlib->shepherds[i].sorted_sheplist[j], qlib->shepherds[i].shep_dists[qlib->shepherds[i].sorted_sheplist[j]]);
         printf("\n");
     }
+    fflush(stdout);              /* a crash of the real code later on must not take the header with it */
     __sync_synchronize();
     logging = 1;
     T[0].tag = 0;
